@@ -17,7 +17,7 @@ func init() {
 	register(&Prop{
 		ID: "C12", Level: "exploration",
 		Rule: "one case = 1-3 client tasks and an optional writer task under the seeded scheduler; every request carries a unique token in every observable field (parameter values, path, query string, request header, host label) and its handler derives response header, status and body length from the token; request shapes are drawn from direct match, ignored trailing slash (parameters come from the slash-adjusted copy), redirect, 404/405/OPTIONS handlers, manual Lookup with and without Close, CloneWith and Clone; handlers yield so that other requests start, finish and recycle contexts in between, and the writer task replaces the tree between requests (contexts are pooled per tree version). Oracle inside every handler, before and after each yield: every Context getter shows the current request's token and nothing of another request; writer status/size/written start clean; route, pattern, scope as the reference dispatcher says. A Clone taken in request A is re-inspected after every later request of its task and at the end: identical to its first fingerprint and free of any other token (including response headers). Non-trivial: a context was re-observed after another task ran, or a clone was re-inspected after a later request; distinct = hash of (programs, schedule).",
-		Run:  runC12, Quick: 16000, Thorough: 1200000,
+		Run:  runC12, Quick: 64000, Thorough: 9600000,
 		Real:   []string{"request Context and its reset variants", "sync.Pool recycling per tree version (deterministic: GOMAXPROCS=1, GC off during a run)", "Clone/CloneWith", "ServeHTTP dispatch", "recorder ResponseWriter"},
 		Stub:   commonStub,
 		Domain: []string{"plain mode only: under -race sync.Pool drops objects at random"},
